@@ -42,6 +42,8 @@ def per_case(u, c, tp, val, kw, out, violate):
         if ok != c["saccept"]:
             violate("schema-model", f"the generated serialization schema {'accepts' if ok else 'rejects'} the serialized datum but the "
                                     "model of the builder says the opposite", extra)
+        elif not ok and "propcount" in c["gaps"]:
+            return      # a property-count constraint under omission options: outside C07 (see MC_Ser!UsesFeatureS)
         elif not ok:
             gap = sorted(c["gaps"])[0] if c["gaps"] else None
             errs = [e.message[:120] for e in list(_state["validator"].iter_errors(r["raw"]))[:3]]
